@@ -305,3 +305,96 @@ Proof. intros Hinv Hok Ha.
       assert (E1 : ((n + 2) mod 3 =? n mod 3) = false) by lia. rewrite E1. reflexivity.
     + unfold g_maxpos, geom_of. cbn [g_tlen]. lia.
 Qed.
+
+(* ---- the words part on refusals: nothing changed, so no word of any partition is reported ---- *)
+Lemma words_diff_refl w : words_diff w w = [].
+Proof. induction w as [|[o v] w IH]; [reflexivity|]. cbn [words_diff]. rewrite !Z.eqb_refl. exact IH. Qed.
+
+Lemma no_words_same l : no_words (log_delta l l) = true.
+Proof. unfold no_words, log_delta. cbn [snd forallb]. rewrite !words_diff_refl. reflexivity. Qed.
+
+Theorem oracle_words_refusal m rv s n off o s0 r0 n0 off0 e :
+  pub_inv n off s -> op_ok (ps_log s) o -> is_append o = true ->
+  snd (pub_step m rv s o) = Err e -> (e = BackPressured \/ e = NotConnected \/ e = Closed \/ e = TooLong) ->
+  words_append (geom_of (ps_log s) n0 off0) (kind_of o) (op_len o)
+               (pub_obs m s0 s r0) (pub_obs m s (fst (pub_step m rv s o)) (snd (pub_step m rv s o))) = true.
+Proof. intros Hinv Hok Ha Hr He. destruct (pub_step m rv s o) as [s' r] eqn:Es. cbn [fst snd] in *. subst r.
+  assert (Hs : s' = s) by (eapply pub_refuse_pure; eassumption). subst s'.
+  unfold words_append. rewrite c_res. unfold pub_obs at 2. unfold o_dump. cbn [fst snd].
+  destruct He as [-> | [-> | [-> | ->]]]; apply no_words_same. Qed.
+
+(* a whole refusal step satisfies the complete per-step predicate *)
+Theorem oracle_step_refusal m rv s n off o s0 r0 n0 off0 e :
+  pub_inv n off s -> op_ok (ps_log s) o -> is_append o = true ->
+  snd (pub_step m rv s o) = Err e -> (e = BackPressured \/ e = NotConnected \/ e = Closed \/ e = TooLong) ->
+  holds_append (geom_of (ps_log s) n0 off0) (env_of s) (kind_of o) (op_len o)
+               (pub_obs m s0 s r0) (pub_obs m s (fst (pub_step m rv s o)) (snd (pub_step m rv s o))) = true.
+Proof. intros Hinv Hok Ha Hr He. unfold holds_append.
+  rewrite (oracle_flow_shared m rv s n off o s0 r0 n0 off0 Hinv Hok Ha).
+  rewrite (oracle_words_refusal m rv s n off o s0 r0 n0 off0 e Hinv Hok Ha Hr He). reflexivity. Qed.
+
+(* ---- the words part on the end-of-term trip: exactly one padding frame ----
+   needs the active partition's content to end where its tail counter says (true at hand-over and kept by every append
+   as long as the driver cleans a partition before the log rotates into it) *)
+Definition spans_nonneg (t : term) : Prop := Forall (fun e => 0 <= entry_span e) t.
+Definition content_ok (l : log) (n off : Z) : Prop :=
+  term_end (part l (n mod 3)) = off /\ spans_nonneg (part l (n mod 3)).
+
+Lemma render_from_app t : forall o es, render_from o (t ++ es) = render_from o t ++ render_from (o + term_end t) es.
+Proof. induction t as [|e t IH]; intros o es.
+  - cbn. rewrite Z.add_0_r. reflexivity.
+  - destruct e as [f|f|k]; cbn [app render_from term_end entry_span]; rewrite IH; rewrite ?app_assoc_reverse; rewrite Z.add_assoc; reflexivity. Qed.
+
+Lemma words_diff_app a b : words_diff a (a ++ b) = b.
+Proof. induction a as [|[o v] a IH]; [destruct b; reflexivity|]. cbn [app words_diff]. rewrite !Z.eqb_refl. exact IH. Qed.
+
+Lemma term_truncate_all t : spans_nonneg t -> term_truncate t (term_end t) = t.
+Proof. induction t as [|e t IH]; intros H; [reflexivity|]. inversion H as [|? ? He Ht]; subst. cbn [term_truncate term_end].
+  assert (Hte : 0 <= term_end t). { clear IH H. induction Ht as [|x r Hx Hr IHr]; cbn [term_end]; lia. }
+  assert (E : (entry_span e <=? entry_span e + term_end t) = true) by lia. rewrite E.
+  replace (entry_span e + term_end t - entry_span e) with (term_end t) by ring. rewrite IH by assumption. reflexivity. Qed.
+
+Lemma term_put_end t es : spans_nonneg t -> term_put t (term_end t) es = t ++ es.
+Proof. intros H. unfold term_put. rewrite term_truncate_all by assumption. rewrite Z.sub_diag. reflexivity. Qed.
+
+Lemma term_put_at t off es : term_end t = off -> spans_nonneg t -> term_put t off es = t ++ es.
+Proof. intros <- H. apply term_put_end. assumption. Qed.
+
+Lemma part_cases l i : 0 <= i < 3 -> part l i = nth (Z.to_nat i) [l_p0 l; l_p1 l; l_p2 l] [].
+Proof. intros H. assert (Hc : i = 0 \/ i = 1 \/ i = 2) by lia. destruct Hc as [-> | [-> | ->]]; reflexivity. Qed.
+
+Lemma d_part_delta a b i : 0 <= i < 3 -> d_part (log_delta a b) i = words_diff (render_term (part a i)) (render_term (part b i)).
+Proof. intros H. assert (Hc : i = 0 \/ i = 1 \/ i = 2) by lia. destruct Hc as [-> | [-> | ->]]; reflexivity. Qed.
+
+Lemma list_eqb_refl_words (w : words) : words_eqb w w = true.
+Proof. induction w as [|[a b] w IH]; [reflexivity|]. cbn. unfold pair_eqb. cbn. rewrite !Z.eqb_refl. exact IH. Qed.
+
+Theorem oracle_words_trip m rv s n off o s0 r0 n0 off0 e :
+  pub_inv n off s -> content_ok (ps_log s) n off -> op_ok (ps_log s) o -> is_append o = true ->
+  snd (pub_step m rv s o) = Err e -> fst (pub_step m rv s o) <> s ->
+  tripped_words (geom_of (ps_log s) n0 off0) (o_dump (pub_obs m s0 s r0))
+                (o_dump (pub_obs m s (fst (pub_step m rv s o)) (snd (pub_step m rv s o)))) = true.
+Proof. intros Hinv (Hend & Hsp) Hok Ha Hr Hne.
+  destruct (pub_step m rv s o) as [s' r] eqn:Es. cbn [fst snd] in *. subst r.
+  destruct (pub_trip m rv s n off o s' e Hinv Hok Ha Es Hne) as (_ & _ & _ & _ & _ & _ & Hcase).
+  pose proof (pi_n _ _ _ Hinv) as Hn.
+  pose proof (mod3_range n) as M0. pose proof (mod3_range (n+1)) as M1. pose proof (mod3_range (n+2)) as M2.
+  pose proof (mod3_distinct n) as (D1 & D2 & D3). destruct (mod3_succ n) as [S1 S2].
+  destruct (bumped_spec (ps_log s) n off (op_required (ps_log s) o) ltac:(lia)) as (_ & _ & _ & _ & B1 & B2 & B0).
+  assert (Hparts : part (ps_log s') (n mod 3) = part (bumped (ps_log s) n off (op_required (ps_log s) o)) (n mod 3) /\
+                   part (ps_log s') ((n + 1) mod 3) = part (ps_log s) ((n + 1) mod 3) /\
+                   part (ps_log s') ((n + 2) mod 3) = part (ps_log s) ((n + 2) mod 3)).
+  { destruct Hcase as [(_ & _ & Hlog & _) | (_ & _ & Hlog)]; rewrite Hlog; [|auto].
+    change (part (rotated ?x n) ?i) with (part x i). auto. }
+  destruct Hparts as (P0 & P1 & P2).
+  unfold tripped_words. rewrite (p_active m s n off Hinv), (p_tail_off m s n off Hinv), (p_tail_tid m s n off Hinv). rewrite S1, S2.
+  unfold pub_obs at 1 2 3. unfold o_dump. cbn [fst snd]. rewrite !d_part_delta by assumption.
+  rewrite P0, P1, P2, B0. rewrite !words_diff_refl.
+  assert (E0 : words_eqb [] [] = true) by reflexivity. rewrite E0, Bool.andb_true_r.
+  unfold geom_of at 1. cbn [g_tlen].
+  destruct (off <? l_tlen (ps_log s)) eqn:Eoff.
+  - rewrite (term_put_at _ off _ Hend Hsp). unfold render_term. rewrite render_from_app. rewrite words_diff_app.
+    rewrite Z.add_0_l, Hend. cbn [render_from]. rewrite !app_nil_r.
+    rewrite Bool.andb_true_r. apply list_eqb_refl_words.
+  - rewrite words_diff_refl. reflexivity.
+Qed.
